@@ -33,6 +33,7 @@ class Ctx:
         self.t0 = time.time()
         self.scratch = tempfile.mkdtemp(prefix="xrl-%s-" % pid, dir=os.environ.get("XRL_SCRATCH", "/tmp"))
         self.mismatches = []          # dicts printed by TLC
+        self.crashes = []             # harness runs ended by a signal (see run_harness)
         self.states = 0; self.transitions = 0; self.distinct = 0
         self.traces = 0; self.evaluations = 0
         self.samples = []; self.notes = {}; self.coverage_actions = {}
@@ -118,6 +119,20 @@ class Ctx:
                 r = subprocess.run([exe] + [str(a) for a in args], stdout=f, stderr=subprocess.PIPE, env=e, timeout=timeout, text=True, stdin=stdin)
             except subprocess.TimeoutExpired:
                 raise Broken("harness timed out: %s %s" % (exe, args))
+        # exit codes 2 and 3 are the harness's own (usage, unreadable program file, an internal table that is full): machinery, never an observation
+        if r.returncode in (2, 3):
+            raise Broken("harness failed on its own account (exit %d) during %s: %s" % (r.returncode, " ".join(str(a) for a in args)[:200], (r.stderr or "")[-400:]))
+        # a harness killed by a signal was brought down by the code under test (abort on heap corruption, SIGSEGV, a sanitizer's abort):
+        # that is an observation about the library, not a failure of the machinery.  The partial last line of its output is dropped.
+        if r.returncode < 0 or r.returncode in (134, 139):
+            self.crashes.append({"prop": self.pid, "why": "the library brought the harness down (signal %d) during: %s" % (abs(r.returncode) if r.returncode < 0 else r.returncode - 128, " ".join(str(a) for a in args)[:200]),
+                                 "stderr": (r.stderr or "")[-600:]})
+            try:
+                data = open(outfile, "rb").read()
+                if data and not data.endswith(b"\n"):
+                    open(outfile, "wb").write(data[:data.rfind(b"\n") + 1])
+            except OSError:
+                pass
         return r
 
     # ------------------------------------------------------------ TLC
@@ -234,6 +249,7 @@ def verdict(ctx, level, coverage, assumptions, extra_violations=()):
         else:
             viol.append(m)
     viol += list(extra_violations)
+    viol += [c for c in ctx.crashes if c not in viol]
     outdir = os.path.join(VERIF, "out", pid)
     shutil.rmtree(outdir, ignore_errors=True); os.makedirs(outdir, exist_ok=True)
     for f in known:
